@@ -35,6 +35,14 @@ MERGE_TWINS = [
     (("and", ("parse", 'python_version > "3.7"'), ("parse", 'python_version < "3.10"')), ("or", ("parse", 'python_version > "3.7"'), ("parse", 'python_full_version >= "3.7.3"'))),
     (("and", ("parse", 'python_version <= "3.7"'), ("parse", 'python_version > "3.5"')), ("and", ("parse", 'python_version <= "3.7"'), ("parse", 'python_full_version >= "3.7.3"'))),
     (("or", ("parse", 'python_version == "3.7"'), ("parse", 'python_version == "3.9"')), ("and", ("parse", 'python_version == "3.7"'), ("parse", 'python_full_version >= "3.7.3"'))),
+    # an atom produced by a merge whose view carries a bound that its text does not show (the upper bound of `~=`, the second bound of `==`),
+    # spelled differently from what the text gives, against the same atom parsed from text
+    (("or", ("and", ("parse", 'platform_release >= "5.10.0"'), ("parse", 'platform_release < "5.11"')), ("parse", 'platform_release < "5.10.0"')),
+     ("or", ("parse", 'platform_release ~= "5.10.0"'), ("parse", 'platform_release < "5.10.0"'))),
+    (("or", ("and", ("parse", 'platform_release >= "5.10"'), ("parse", 'platform_release <= "5.10.0"')), ("parse", 'platform_release < "5.10"')),
+     ("or", ("parse", 'platform_release == "5.10"'), ("parse", 'platform_release < "5.10"'))),
+    (("or", ("and", ("parse", 'python_full_version >= "3.8.0"'), ("parse", 'python_full_version < "3.9"')), ("parse", 'python_full_version < "3.8.0"')),
+     ("or", ("parse", 'python_full_version ~= "3.8.0"'), ("parse", 'python_full_version < "3.8.0"'))),
     (("and", ("parse", 'os_name == "a" or os_name == "b"'), ("parse", 'python_version >= "3.8" or sys_platform == "y"')),
      ("and", ("parse", 'os_name == "b" or os_name == "a"'), ("parse", 'python_version >= "3.8" or sys_platform == "y"'))),
     (("or", ("parse", 'os_name != "a" and os_name != "b"'), ("parse", 'python_version >= "3.8" and sys_platform == "y"')),
@@ -82,6 +90,28 @@ def observe(e, envs):
     return str(m), OM.ev_vector(m, envs)
 
 
+def merged_twin(rng):
+    """two atoms over one version-like variable whose merge is a single atom, bounds spelled X.Y / X.Y.0 at random, and a third atom next to them"""
+    name = rng.choice(["python_full_version", "platform_release", "python_version", "platform_release"])
+    major, minor = rng.choice([3, 5]), rng.choice([7, 8, 10])
+    def spell(mi, patch=0):
+        if patch:
+            return f"{major}.{mi}.{patch}"
+        return rng.choice([f"{major}.{mi}", f"{major}.{mi}.0"])
+    shape = rng.randrange(4)
+    if shape == 0:      # >= lo and < next minor  ->  ~= / ==X.Y.*
+        pair, k = (f'{name} >= "{spell(minor)}"', f'{name} < "{spell(minor + 1)}"'), "and"
+    elif shape == 1:    # >= v and <= v  ->  == v
+        pair, k = (f'{name} >= "{spell(minor)}"', f'{name} <= "{spell(minor)}"'), "and"
+    elif shape == 2:    # < v or > v  ->  != v
+        pair, k = (f'{name} < "{spell(minor)}"', f'{name} > "{spell(minor)}"'), "or"
+    else:               # < lo or >= next minor  ->  != X.Y.*
+        pair, k = (f'{name} < "{spell(minor)}"', f'{name} >= "{spell(minor + 1)}"'), "or"
+    op = rng.choice(["<", "<=", ">", ">=", "==", "!="])
+    third = f'{name} {op} "{spell(rng.choice([minor - 1, minor, minor, minor + 1, minor + 1]), rng.choice([0, 0, 0, 2]))}"'
+    return (k, ("parse", pair[0]), ("parse", pair[1])), third, rng.choice(["and", "or"])
+
+
 def gen_expr(rng, A, depth=2):
     if depth == 0 or rng.chance(1, 3):
         if rng.chance(1, 3):
@@ -124,10 +154,16 @@ def run(tier="quick", seed=0, arg=None):
         tw = rng.choice(TWINS)
         shape = rng.randrange(4)
         other = rng.choice(A)
-        probe = [("parse", tw[0]), ("and", ("parse", tw[0]), ("parse", tw[0])), ("and", ("parse", tw[0]), ("parse", other)),
-                 ("or", ("parse", tw[0]), ("parse", other))][shape] if rng.chance(2, 3) else gen_expr(rng, A)
-        history = [("parse", tw[1]), ("and", ("parse", tw[1]), ("parse", tw[0])), ("or", ("parse", tw[1]), ("parse", other)),
-                   ("and", ("parse", tw[1]), ("parse", other))] + [gen_expr(rng, A) for _ in range(rng.randrange(6))]
+        if i % 4 == 3:
+            # a merged atom (its view is whatever the merge installed) against its own text parsed afresh, each combined with a third atom
+            merged, third, k = merged_twin(rng)
+            probe = (k, ("reparse", merged), ("parse", third))
+            history = [(k, merged, ("parse", third))] + [gen_expr(rng, A) for _ in range(rng.randrange(3))]
+        else:
+            probe = [("parse", tw[0]), ("and", ("parse", tw[0]), ("parse", tw[0])), ("and", ("parse", tw[0]), ("parse", other)),
+                     ("or", ("parse", tw[0]), ("parse", other))][shape] if rng.chance(2, 3) else gen_expr(rng, A)
+            history = [("parse", tw[1]), ("and", ("parse", tw[1]), ("parse", tw[0])), ("or", ("parse", tw[1]), ("parse", other)),
+                       ("and", ("parse", tw[1]), ("parse", other))] + [gen_expr(rng, A) for _ in range(rng.randrange(6))]
         try:
             with time_limit(20):
                 clear()
